@@ -272,8 +272,12 @@ func emitValidate(t *tracer, via string, ac absConfig, err error, nilmw bool) {
 			msg = msg[:300]
 		}
 	}
+	nlines := 0
+	if err != nil {
+		nlines = strings.Count(err.Error(), "\n") + 1 // the violations REPORTED: one line of the message each
+	}
 	t.emit(map[string]any{"ev": "Validate", "via": via, "cfg": ac.toJSON(), "ok": err == nil, "nilmw": nilmw,
-		"errs": errs, "nyield": ny, "nleaves": leavesByOwnWalk(err), "panicked": pan, "msg": msg})
+		"errs": errs, "nyield": ny, "nleaves": leavesByOwnWalk(err), "nlines": nlines, "panicked": pan, "msg": msg})
 }
 
 // validateAll calls NewMiddleware and Reconfigure (on a passthrough and on a configured
@@ -441,7 +445,9 @@ func cmdCfgs(args []string) {
 			if err := json.Unmarshal(line, &cc); err != nil {
 				fatal("bad case: %v", err)
 			}
-			if (idx+off)%*stride != 0 && !starMix(cc.O) {
+			wildMix := len(cc.O) == 2 && (strings.HasPrefix(cc.O[0], "o_wild") || strings.HasPrefix(cc.O[0], "o_psl")) &&
+				(strings.HasPrefix(cc.O[1], "o_wild") || strings.HasPrefix(cc.O[1], "o_psl")) // one wildcard may subsume the other
+			if (idx+off)%*stride != 0 && !starMix(cc.O) && !wildMix {
 				return
 			}
 			ac := absConfig{Origins: mk(cc.O), Methods: mk(cc.M), ReqH: mk(cc.H), RespH: mk(cc.E),
